@@ -155,7 +155,7 @@ def run_unit(ck, unit):
     r = br.call(cmd='load', yaml=yaml, opts=None)
     if 'panic' in r:
         return
-    tr = TreeRunner(ck, Bounds(str_cap=3 if quick else 4, arr_cap=1 if quick else 2, depth=2))
+    tr = TreeRunner(ck, Bounds(str_cap=3 if quick else 4, arr_cap=1 if quick else 2, depth=3 if 'n.m.f' in name else 2))
     tr.uni.numstr_cap = 2
     orc = O.Oracle(tr.uni, tr.doc)
     try:
